@@ -159,6 +159,16 @@ func (c *layoutCase) render() (src string, model []string, decls [][]declRef) {
 		indent := ""
 		sname := fmt.Sprintf("S%d", si)
 		switch s.Kind {
+		case "linedir":
+			// a line directive (as goyacc, cgo and templating tools leave them): what follows belongs, for every
+			// position-reporting function, to another file and other line numbers.  The directive is a comment of its own,
+			// detached from what follows by the empty line that ends every section; each names a file of its own.
+			l := fmt.Sprintf("line gen%d.y:%d", si, max(len(s.Rows), 1)*7)
+			b.WriteString("//" + l + "\n")
+			model = append(model, "c", "1", hx(l))
+			b.WriteString("\n")
+			blank()
+			continue
 		case "struct":
 			fmt.Fprintf(&b, "type %s struct {\n", sname)
 			// the header line declares the struct type itself
@@ -311,6 +321,7 @@ func siblingFile(src string) string {
 	s := siblingIdent.ReplaceAllString(src, "Q$1$2")
 	s = strings.ReplaceAll(s, "// ", "// other-file ")
 	s = strings.ReplaceAll(s, "/* ", "/* other-file ")
+	s = strings.ReplaceAll(s, "//line gen", "//line qgen")
 	return s
 }
 
@@ -530,7 +541,7 @@ func (c *layoutCase) Shrinks() []Case {
 				out = append(out, &layoutCase{Sections: n})
 			}
 		}
-		if s.Kind != "top-var" {
+		if s.Kind != "top-var" && s.Kind != "linedir" {
 			n := cp()
 			n[i].Kind = "top-var"
 			out = append(out, &layoutCase{Sections: n})
@@ -618,6 +629,9 @@ func genLayout(r *Rng) *layoutCase {
 	ns := 1 + r.Intn(3)
 	id := 0
 	for s := 0; s < ns; s++ {
+		if r.Chance(12) {
+			c.Sections = append(c.Sections, LSection{Kind: "linedir", Rows: make([]LRow, r.Intn(3))})
+		}
 		sec := LSection{Kind: Pick(r, []string{"top-var", "top-type", "top-const", "struct", "struct", "const", "var", "type"})}
 		n := 1 + r.Intn(7)
 		for i := 0; i < n; i++ {
@@ -691,6 +705,8 @@ func enumLayouts(yield func(*layoutCase)) {
 	emit := func(rows []LRow) {
 		for _, kind := range []string{"struct", "top-var", "const"} {
 			yield(&layoutCase{Sections: []LSection{{Kind: kind, Rows: append([]LRow{}, rows...)}}})
+			// the same behind a line directive, with an undirected section ahead of it
+			yield(&layoutCase{Sections: []LSection{{Kind: "top-var", Rows: []LRow{{K: "c", Lines: []string{"doc 9"}}, {K: "d", H: 1, Trail: "trail 9"}}}, {Kind: "linedir"}, {Kind: kind, Rows: append([]LRow{}, rows...)}}})
 		}
 	}
 	rec = func(rows []LRow, n int) {
